@@ -227,3 +227,11 @@ drivers' histories (which vary time stamps and bodies independently of the seque
 which it shows. -/
 theorem C03_reads_only_sequence_and_type :
     LA.Gen.ReasmFacts.msgReads = ["call:ReassemblyComplete", "field:RecordType", "field:Sequence"] := by decide
+
+/-- What the root package reads of the process it runs in is the clock (the Reassembler's deadlines, which the model is
+given as readings), the process id (an input of SetPID) and the page size (the default receive buffer): `envReads`,
+regenerated with go/types on every run, lists the package-level functions of os, os/user, os/exec, net, runtime,
+math/rand, crypto/rand that are called, time.Now / Since / Until, file-system functions of path/filepath and process
+queries of syscall. Nothing else of the machine — processors, environment variables, files, random numbers — can
+influence what the Reassembler or the client does. -/
+theorem C03_environment_is_clock_pid_pagesize : LA.StateFacts.envOf "" = LA.StateFacts.rootEnv := by decide
